@@ -107,6 +107,28 @@ ssize_t sim_write(int fd, const void *buf, size_t n) {{ return write_hook(fd, bu
 void *sim_calloc(size_t n, size_t sz) {{ last_n = n; last_sz = sz; return dummy_heap; }}
 void sim_free(void *p) {{ (void)p; }}
 uint64_t sim_last_calloc(void) {{ return last_n * last_sz; }}
+/* the C library's buffered output functions end at the same seam as write (a runtime that prints
+   with printf or fputs instead of write is judged by the bytes it produces, in order) */
+#include <stdio.h>
+#include <stdarg.h>
+#include <string.h>
+static int fd_of(FILE *f) {{ return f == stderr ? 2 : 1; }}
+static int vout(int fd, const char *fmt, va_list ap) {{
+  char b[8192];
+  int n = vsnprintf(b, sizeof b, fmt, ap);
+  if (n > (int)sizeof b - 1) n = sizeof b - 1;
+  if (n > 0) write_hook(fd, b, n);
+  return n;
+}}
+int sim_printf(const char *fmt, ...) {{ va_list ap; va_start(ap, fmt); int n = vout(1, fmt, ap); va_end(ap); return n; }}
+int sim_fprintf(FILE *f, const char *fmt, ...) {{ va_list ap; va_start(ap, fmt); int n = vout(fd_of(f), fmt, ap); va_end(ap); return n; }}
+int sim_dprintf(int fd, const char *fmt, ...) {{ va_list ap; va_start(ap, fmt); int n = vout(fd, fmt, ap); va_end(ap); return n; }}
+int sim_puts(const char *s) {{ write_hook(1, s, strlen(s)); write_hook(1, "\n", 1); return 1; }}
+int sim_fputs(const char *s, FILE *f) {{ write_hook(fd_of(f), s, strlen(s)); return 1; }}
+int sim_putchar(int c) {{ char ch = (char)c; write_hook(1, &ch, 1); return c; }}
+int sim_fputc(int c, FILE *f) {{ char ch = (char)c; write_hook(fd_of(f), &ch, 1); return c; }}
+size_t sim_fwrite(const void *p, size_t sz, size_t n, FILE *f) {{ if (sz * n > 0) write_hook(fd_of(f), p, sz * n); return n; }}
+int sim_fflush(FILE *f) {{ (void)f; return 0; }}
 /* process exit is simulated: handlers registered with atexit run when the driver's main returns or
    calls exit, while the job that started the "process" is still current */
 #include <setjmp.h>
@@ -156,7 +178,7 @@ impl CRuntime {
                     }
                     Ok(())
                 };
-                let defs = ["-Dmain=scc_driver_main", "-Dwrite=sim_write", "-Dcalloc=sim_calloc", "-Dfree=sim_free", "-Datexit=sim_atexit", "-Dexit=sim_exit"];
+                let defs = ["-Dmain=scc_driver_main", "-Dwrite=sim_write", "-Dcalloc=sim_calloc", "-Dfree=sim_free", "-Datexit=sim_atexit", "-Dexit=sim_exit", "-Dprintf=sim_printf", "-Dfprintf=sim_fprintf", "-Ddprintf=sim_dprintf", "-Dputs=sim_puts", "-Dfputs=sim_fputs", "-Dputchar=sim_putchar", "-Dfputc=sim_fputc", "-Dputc=sim_fputc", "-Dfwrite=sim_fwrite", "-Dfflush=sim_fflush", "-U_FORTIFY_SOURCE"];
                 let mut a: Vec<String> = vec!["-fPIC".into(), "-O1".into(), "-w".into(), "-c".into(), format!("driver{k}.c"), "-o".into(), format!("driver{k}.o")];
                 a.extend(defs.iter().map(|s| s.to_string()));
                 run(&a.iter().map(|s| s.as_str()).collect::<Vec<_>>())?;
@@ -902,7 +924,7 @@ fn probe_driver(dir: &str, step: usize, k: usize, text: &str, heap_mb: u64) -> R
     };
     let co = format!("{dir}/probe{step}.o");
     let sho = format!("{dir}/probe{step}_shim.o");
-    if !run(&["-fPIC", "-O1", "-w", "-c", &c, "-o", &co, "-Dmain=scc_driver_main", "-Dwrite=sim_write", "-Dcalloc=sim_calloc", "-Dfree=sim_free", "-Datexit=sim_atexit", "-Dexit=sim_exit"])? {
+    if !run(&["-fPIC", "-O1", "-w", "-c", &c, "-o", &co, "-Dmain=scc_driver_main", "-Dwrite=sim_write", "-Dcalloc=sim_calloc", "-Dfree=sim_free", "-Datexit=sim_atexit", "-Dexit=sim_exit", "-Dprintf=sim_printf", "-Dfprintf=sim_fprintf", "-Ddprintf=sim_dprintf", "-Dputs=sim_puts", "-Dfputs=sim_fputs", "-Dputchar=sim_putchar", "-Dfputc=sim_fputc", "-Dputc=sim_fputc", "-Dfwrite=sim_fwrite", "-Dfflush=sim_fflush", "-U_FORTIFY_SOURCE"])? {
         return Ok(Some("does not compile".into()));
     }
     if !run(&["-fPIC", "-O1", "-c", &sh, "-o", &sho])? {
